@@ -89,7 +89,7 @@ def run_selfreg(chk, F, rid="R-SELFREG"):
         chk.ob(rid, "%s|%s" % (fn["q"].split("::")[-1], obj), ok,
                "%s: %s - the object reachable from the document is not the user object of its own symbol" % (fn["q"], why),
                where)
-    if n < 8:
+    if n < 4:       # (a shared `declare(frame, name, .., item)` helper merges several sites into one)
         raise AnalysisBroken("only %d registering add_symbol sites found" % n)
 
 
@@ -129,11 +129,47 @@ def run_stable(chk, F, rid="R-STABLE"):
                     if x.get("k") == "call" and x.get("name") in ("emplace_back", "push_back"):
                         src = x
         where = "%s:%s" % (fn["file"], c.get("l"))
+        lifted = []
         if src is None:
+            # the object is a parameter of a shared helper (`declare(frame, name, type, pos, item)`): look where each caller
+            # created what it passes
+            pidx = [i for i, p_ in enumerate(fn.get("params", [])) if p_.get("name") == obj]
+            if pidx:
+                for g in F.functions.values():
+                    if g.get("body") is None or g is fn:
+                        continue
+                    for c2 in calls(g["body"]):
+                        if c2.get("name") == fn["name"] and len(c2.get("args", [])) > pidx[0] and \
+                                (c2.get("fn") == fn["q"] or (c2.get("fn") or "").split("<")[0] == fn["q"].split("<")[0]):
+                            a2 = _strip(c2["args"][pidx[0]])
+                            while isinstance(a2, dict) and a2.get("k") == "un" and a2.get("op") in ("*", "&"):
+                                a2 = _strip(a2["e"])
+                            nm2 = short(a2).replace("this->", "")
+                            for d in walk(g["body"]):
+                                if d.get("k") == "decl":
+                                    for v in d.get("vars", []):
+                                        if v["name"] == nm2 and v.get("init") is not None:
+                                            for x in walk(v["init"]):
+                                                if x.get("k") == "call" and x.get("name") in ("emplace_back", "push_back"):
+                                                    lifted.append((g, x))
+                                if d.get("k") == "bin" and d.get("op") == "=" and short(d["lhs"]).replace("this->", "") == nm2:
+                                    for x in walk(d["rhs"]):
+                                        if x.get("k") == "call" and x.get("name") in ("emplace_back", "push_back"):
+                                            lifted.append((g, x))
+        if src is None and not lifted:
             # registered object handed in by the caller (currentInstanceLine): its container is checked where it is created
             chk.note("%s registers `%s`, created elsewhere" % (fn["q"], obj))
             continue
-        n += 1
+        for owner_fn, src in ([(fn, src)] if src is not None else lifted):
+          n += 1
+          _stable_one(chk, F, rid, owner_fn, src, where, containers)
+    if n < 6:
+        raise AnalysisBroken("only %d registered objects with a visible creation site" % n)
+    _stable_moves(chk, F, rid, containers)
+
+
+def _stable_one(chk, F, rid, fn, src, where, containers):
+    if True:
         cont = _strip(src.get("recv") or {})
         cname = cont.get("name")
         ts = _field_type(F, cname) if cont.get("k") == "member" else set()
@@ -148,8 +184,9 @@ def run_stable(chk, F, rid="R-STABLE"):
         chk.ob(rid, "%s|%s" % (fn["q"].split("::")[-1], cname or short(cont)), stable,
                "%s creates the registered object in `%s` (%s), whose elements move when it grows: the symbol's user "
                "data dangles" % (fn["q"], short(cont), sorted(t for _, t in ts) or ptype), where)
-    if n < 6:
-        raise AnalysisBroken("only %d registered objects with a visible creation site" % n)
+
+
+def _stable_moves(chk, F, rid, containers):
     # no element-moving operation on those containers anywhere
     for fn in F.functions.values():
         for c in calls(fn.get("body")):
@@ -240,6 +277,17 @@ def run_edge(chk, F, rid="R-EDGE"):
                     any(x.get("k") == "return" for x in walk(st)) and i < len(stmts) - 1:
                 first_throw = i
                 break
+        def helper_assigns(call, mname):
+            """a file-local helper that assigns `<param>.mname` (declare(frame, name, type, pos, item): item.uid = ..)"""
+            for t in F.fns(call.get("fn") or ""):
+                if t.get("body") is None or t.get("cls"):
+                    continue
+                for y in walk(t["body"]):
+                    if y.get("k") in ("bin", "call") and y.get("op") == "=":
+                        l2 = y.get("lhs") or y.get("recv") or (y.get("args") or [None])[0]
+                        if isinstance(l2, dict) and l2.get("k") == "member" and l2.get("name") == mname:
+                            return True
+            return False
         for mname in members:
             pos = None
             for i, st in enumerate(stmts):
@@ -248,6 +296,8 @@ def run_edge(chk, F, rid="R-EDGE"):
                         lhs = x.get("lhs") or x.get("recv") or (x.get("args") or [None])[0]
                         if isinstance(lhs, dict) and lhs.get("k") == "member" and lhs.get("name") == mname:
                             pos = i if pos is None else pos
+                    if x.get("k") == "call" and x.get("fn") and x.get("ck") in ("free", "static") and helper_assigns(x, mname):
+                        pos = i if pos is None else pos
             ok = pos is not None and (first_throw is None or pos < first_throw)
             chk.ob(rid, "complete|%s|%s" % (fnq.split("::")[-1], mname), ok,
                    "%s can leave (throw / early return at statement %s) before assigning `%s` of the element it has "
@@ -366,11 +416,23 @@ def run_tadef(chk, F, rid="R-TADEF"):
     if done is None or done.get("body") is None:
         raise AnalysisBroken("DocumentBuilder::done not found")
     ok = False
+    done = expanded_fn(done, F, accept=lambda t: bool(t.get("static")) and not t.get("cls"), maxdepth=2)
+
+    def undefined_on_path(conds):
+        """the path conditions say `is_defined` is false: `if (!t->is_defined)`, or after `if (t->is_defined) continue;`"""
+        for c, t in conds:
+            c0, neg = strip(c), False
+            while isinstance(c0, dict) and c0.get("k") == "un" and c0.get("op") == "!":
+                c0, neg = strip(c0["e"]), not neg
+            if isinstance(c0, dict) and any(x.get("k") == "member" and x.get("name") == "is_defined" for x in walk(c0)) and \
+                    c0.get("k") in ("member", "cast", "call") and (t != neg) is False:
+                return True
+        return False
     for n in walk(done["body"]):
-        if n.get("k") in ("rangefor", "for") and any(c.get("name") == "get_dynamic_templates" for c in calls(n)):
-            for i in walk(n):
-                if i.get("k") == "if" and any(x.get("k") == "member" and x.get("name") == "is_defined" for x in walk(i["c"])) and \
-                        any(c.get("name") in ("add_error", "handle_error", "handleError") for c in calls(i["then"])):
+        if n.get("k") in ("rangefor", "for", "while") and any(c.get("name") == "get_dynamic_templates" for c in calls(n)):
+            for site, conds in sites_with_conditions(n.get("body") or n, lambda x: x.get("k") == "call" and x.get("name") in
+                                                     ("add_error", "handle_error", "handleError")):
+                if undefined_on_path(conds):
                     ok = True
     chk.ob(rid, "done|undefined dynamic template", ok,
            "DocumentBuilder::done does not report the dynamic templates that were declared but never defined: "
@@ -473,5 +535,5 @@ def run_uidsrc(chk, F, rid="R-UIDSRC"):
                    "%s assigns `%s.uid` a symbol that is not the one created for that object (%s): the object stays "
                    "reachable from the document, but the user data of its symbol is a different object" %
                    (fn["q"], owner, why), "%s:%s" % (fl, x.get("l")), sample="%s.uid = add_symbol(.., %s)" % (owner, owner))
-    if n < 8:
+    if n < 4:
         raise AnalysisBroken("R-UIDSRC: only %d assignments to a uid found" % n)
